@@ -174,11 +174,23 @@ def fmtUpdate (n : Nat) (k : Nat) (ks : List Nat) (v : SVal) (d : Ctx) : Except 
 
 /-! ## programs -/
 
+/-- the output keys that a `MakeFilename` can set -/
+inductive MkfKey where
+  | pfx | sfx | filename | dirname | fileext
+  deriving DecidableEq, Repr
+
+/-- `MakeFilename(filename=…, dirname=…, fileext=…, prefix=…, suffix=…, overwrite=…)`: its `_methods` in the
+order `__init__` builds them (prefix, suffix, filename, dirname, fileext — those that were given) -/
+structure Mkf where
+  methods : List (MkfKey × Tpl)
+  overwrite : Bool
+  deriving Repr
+
 inductive Elem where
   | set (k : Nat) (ks : List Nat) (v : SVal)     -- `SetContext("k.ks", v)`
   | store                                        -- `StoreContext()`
   | ucfs                                         -- `UpdateContextFromStatic()`
-  | mkf (t : Tpl)                                -- `MakeFilename(t)`
+  | mkf (m : Mkf)                                -- `MakeFilename(…)`
   | write (t : Tpl)                              -- `Write(t)`
   | cache (t : Tpl)                              -- `Cache(t)`
   | data                                         -- an ordinary element (no static-context methods)
@@ -227,7 +239,7 @@ inductive St where
   | set (k : Nat) (ks : List Nat) (v : SVal) (sc : SC)
   | store (c : Ctx)                              -- `self.context`
   | ucfs (c : Ctx)                               -- `self._context`
-  | mkf (t : Tpl) (c : Option Ctx)               -- `self._context` (absent until set)
+  | mkf (m : Mkf) (c : Option Ctx)               -- `self._context` (absent until set)
   | write (t : Tpl) (name : Option Leaf)         -- `output_directory`; `none`: still the unformatted string
   | cache (t : Tpl) (name : Option Leaf)         -- `_filename`
   | data
@@ -442,6 +454,15 @@ structure OutKeys where
   filename : Nat
   pfx : Nat
   sfx : Nat
+  dirname : Nat
+  fileext : Nat
+
+def OutKeys.slot (ok : OutKeys) : MkfKey → Nat
+  | .pfx => ok.pfx
+  | .sfx => ok.sfx
+  | .filename => ok.filename
+  | .dirname => ok.dirname
+  | .fileext => ok.fileext
 
 abbrev Item := Int × Ctx
 
@@ -475,9 +496,10 @@ def delAffix (ok : OutKeys) (ctx : Ctx) (key : Nat) (s : String) : Ctx :=
     | some (.dict o) => setSlot ctx ok.output (some (.dict (clearSlot o key)))
     | _ => ctx
 
-/-- `MakeFilename(t).__call__((data, ctx))` (make_filename.py 100-186, one method `filename`, not
-`overwrite`): the new context -/
-def mkfCall (n : Nat) (ok : OutKeys) (t : Tpl) (static : Option Ctx) (ctx : Ctx) : Option Ctx :=
+/-- one iteration of `for key, meth in self._methods:` of `MakeFilename.__call__` (make_filename.py 128-178):
+the context of the value afterwards -/
+def mkfStep (n : Nat) (ok : OutKeys) (overwrite : Bool) (static : Option Ctx) (ctx : Ctx) (key : MkfKey) (t : Tpl) :
+    Option Ctx :=
   let go : Option Ctx :=
     -- `full_context = deepcopy(self._context); full_context.update(context)`
     let full := match static with
@@ -486,18 +508,56 @@ def mkfCall (n : Nat) (ok : OutKeys) (t : Tpl) (static : Option Ctx) (ctx : Ctx)
     match fmt t full with
     | .error _ => some ctx                           -- `except LenaKeyError: continue`
     | .ok res =>
-      match getAffix ok ctx ok.pfx, getAffix ok ctx ok.sfx with
-      | some p, some s =>
-        let name := match res with
-          | .str r => Leaf.str (p ++ r ++ s)
-          | l => l
-        let ctx' := delAffix ok (delAffix ok ctx ok.pfx p) ok.sfx s
-        some (updL ctx' (single n ok.output [ok.filename] name))
-      | _, _ => none
-  match getSlot ctx ok.output with
-  | some (.leaf _) => none                           -- `key in context["output"]` on a scalar
-  | some (.dict o) => if (getSlot o ok.filename).isSome then some ctx else go
-  | none => go
+      match key with
+      | .filename =>
+        -- `prefix = get_recursively(context, "output.prefix", "")`, the same for suffix; both are deleted
+        match getAffix ok ctx ok.pfx, getAffix ok ctx ok.sfx with
+        | some p, some s =>
+          let name := match res with
+            | .str r => Leaf.str (p ++ r ++ s)
+            | l => l
+          let ctx' := delAffix ok (delAffix ok ctx ok.pfx p) ok.sfx s
+          some (updL ctx' (single n ok.output [ok.filename] name))
+        | _, _ => none
+      | .pfx =>
+        -- `existing = get_recursively(context, "output.prefix", None)`; prepended before an existing prefix
+        match getAffix ok ctx ok.pfx with
+        | none => none
+        | some ex =>
+          let res' := match res with
+            | .str r => if ex ≠ "" ∧ overwrite = false then Leaf.str (r ++ ex) else Leaf.str r
+            | l => l
+          some (updL ctx (single n ok.output [ok.pfx] res'))
+      | .sfx =>
+        match getAffix ok ctx ok.sfx with
+        | none => none
+        | some ex =>
+          let res' := match res with
+            | .str r => if ex ≠ "" ∧ overwrite = false then Leaf.str (ex ++ r) else Leaf.str r
+            | l => l
+          some (updL ctx (single n ok.output [ok.sfx] res'))
+      | k => some (updL ctx (single n ok.output [ok.slot k] res))      -- dirname, fileext
+  match key with
+  | .pfx => go
+  | .sfx => go
+  | k =>
+    -- `if "output" in context and key in context["output"]: if not self._overwrite: continue`
+    match getSlot ctx ok.output with
+    | some (.leaf _) => none                         -- `key in context["output"]` on a scalar
+    | some (.dict o) => if (getSlot o (ok.slot k)).isSome ∧ overwrite = false then some ctx else go
+    | none => go
+
+/-- the loop over `self._methods` -/
+def mkfSteps (n : Nat) (ok : OutKeys) (overwrite : Bool) (static : Option Ctx) : List (MkfKey × Tpl) → Ctx → Option Ctx
+  | [], ctx => some ctx
+  | (k, t) :: r, ctx =>
+    match mkfStep n ok overwrite static ctx k t with
+    | none => none
+    | some ctx' => mkfSteps n ok overwrite static r ctx'
+
+/-- `MakeFilename(…).__call__((data, ctx))` (make_filename.py 100-186): the new context -/
+def mkfCall (n : Nat) (ok : OutKeys) (m : Mkf) (static : Option Ctx) (ctx : Ctx) : Option Ctx :=
+  mkfSteps n ok m.overwrite static m.methods ctx
 
 mutual
 /-- `el.run(flow)` (for a `Source`: `el()`), `srcFlow` being what the first element of a `Source` generates -/
@@ -682,5 +742,42 @@ end
 def appendOpt : Option (List Item) → Option (List Item) → Option (List Item)
   | some a, some b => some (a ++ b)
   | _, _ => none
+
+
+/-! ## closed form of the multi-pass protocol (executable; the driver compares it with the transcribed
+protocol and the harness with the real objects)
+
+`final t F`: the state of the objects of program `t` when the contexts delivered to `t` so far are `F` (oldest
+first; for a sequence the first one is the `{}` of its own constructor): every object is in the state that the
+*last* context that reaches it — computed by the specification fold — puts it in. -/
+
+/-- the contexts that get past `t` -/
+def pastT (n : Nat) (t : Tree) (F : List Ctx) : List Ctx := F.filterMap (fun c => (fold n t c).toOption)
+
+mutual
+def final (n : Nat) : Tree → List Ctx → St
+  | .leaf e, F => leafFinal n e (lastD n F)
+  | .seq kind cs, F => .seq kind (finalL n cs F) (SC.ofExcept (foldL n cs (lastD n F)))
+  | .split bs, F => .split (finalB n bs F)
+/-- children of a sequence; `F`: the contexts that reach the first of them -/
+def finalL (n : Nat) : List Tree → List Ctx → List St
+  | [], _ => []
+  | t :: ts, F => final n t (Val.empty n :: F) :: finalL n ts (pastT n t F)
+/-- branches of a `Split` -/
+def finalB (n : Nat) : List Tree → List Ctx → List St
+  | [], _ => []
+  | b :: bs, F => final n b (Val.empty n :: F) :: finalB n bs F
+end
+
+/-- the contexts that get past a list of consecutive elements -/
+def pastL (n : Nat) : List Tree → List Ctx → List Ctx
+  | [], F => F
+  | t :: ts, F => pastL n ts (pastT n t F)
+
+/-- the history of the node below the enclosing containers `k`, when the history of the outermost one is `F` -/
+def histOfCone (n : Nat) : List ConeStep → List Ctx → List Ctx
+  | [], F => F
+  | .seq earlier :: k, F => histOfCone n k (Val.empty n :: pastL n earlier F)
+  | .split :: k, F => histOfCone n k (Val.empty n :: F)
 
 end Lena.C13
